@@ -166,6 +166,10 @@ func opDiskScan(f []string) string {
 	defer func() { scanDirName = "d" }()
 	// "dl" is a symlink to the scanned directory: an argument spelled through it is the same directory
 	os.Symlink(filepath.Join(root, scanDirName), filepath.Join(root, "dl"))
+	// "hop/../dm" names it too, for the operating system only (hop -> deep/inner, deep/dm -> the directory)
+	os.MkdirAll(filepath.Join(root, "deep", "inner"), 0o755)
+	os.Symlink(filepath.Join(root, "deep", "inner"), filepath.Join(root, "hop"))
+	os.Symlink(filepath.Join(root, scanDirName), filepath.Join(root, "deep", "dm"))
 	real := realArg(root, arg)
 	var o Obs
 	lf := "err"
@@ -229,6 +233,12 @@ func opDiskFind(f []string) string {
 	if err != nil {
 		return "harness-error=1"
 	}
+	// "hop" is a symlink to deep/inner, "deep/dm" a symlink to the directory: the spelling
+	// hop/../dm/ names the directory for the operating system (and for nobody who reads it
+	// lexically: there is no /T/dm)
+	os.MkdirAll(filepath.Join(root, "deep", "inner"), 0o755)
+	os.Symlink(filepath.Join(root, "deep", "inner"), filepath.Join(root, "hop"))
+	os.Symlink(filepath.Join(root, "d"), filepath.Join(root, "deep", "dm"))
 	real := realArg(root, pat)
 	var opts []fileseq.FileOption
 	if strict {
@@ -412,7 +422,7 @@ func genDiskScan(r *Rand, n int, thorough bool, emit func(string)) {
 	for _, sp := range []string{"/", "//", "/./", "/tmp/..", "/../"} {
 		emit(fmt.Sprintf("disk.root %d %s %s", r.Intn(4), r.Pick([]string{"1", "4"}), hx(sp)))
 	}
-	args := []string{"/T/d", "/T/d/", "d", "./d", "d/", "./d/", ".", "/T/./d", "/T/d/../d", "/T//d", "/T/dl", "dl", "/T/dl/", "./dl"}
+	args := []string{"/T/d", "/T/d/", "d", "./d", "d/", "./d/", ".", "/T/./d", "/T/d/../d", "/T//d", "/T/dl", "dl", "/T/dl/", "./dl", "/T/hop/../dm", "hop/../dm/"}
 	for i := 0; i < n; i++ {
 		ents := genEntries(r, false, "", "")
 		arg := r.Pick(args)
@@ -464,7 +474,7 @@ func genDiskFind(r *Rand, n int, thorough bool, emit func(string)) {
 		base := r.Pick([]string{"foo.", "foo_", "foo", "a.b.", "img-", "x.1.", "ff"})
 		ext := r.Pick([]string{".exr", ".tar.gz", "", ".e", ".f"})
 		ents := genEntries(r, true, base, ext)
-		dir := r.Pick([]string{"/T/d/", "d/", "./d/", "/T/d//"})
+		dir := r.Pick([]string{"/T/d/", "d/", "./d/", "/T/d//", "/T/hop/../dm/", "hop/../dm/"})
 		dirok := "1"
 		if r.Chance(1, 20) {
 			dir = "/T/nope/"
